@@ -392,9 +392,22 @@ impl UpdateHandle {
         let mut path_proof_offset = 0;
         let mut witnessed_start = 0;
 
+        // Workers finish in arbitrary order, but witnessed operations are attributed to paths by
+        // a running offset into `read_write`: process the outputs in key order of their ranges.
+        let mut outputs = Vec::with_capacity(self.num_workers);
         for _ in 0..self.num_workers {
-            let output = join_task(&self.worker_rx)?;
+            outputs.push(join_task(&self.worker_rx)?);
+        }
+        outputs.sort_by(|a, b| {
+            let first_path = |o: &WorkerOutput| {
+                o.witnessed_paths
+                    .as_ref()
+                    .and_then(|paths| paths.first().map(|(p, _, _)| p.path.path().to_bitvec()))
+            };
+            first_path(a).cmp(&first_path(b))
+        });
 
+        for output in outputs {
             if let Some(root) = output.root {
                 assert!(new_root.is_none());
                 new_root = Some(root);
